@@ -196,7 +196,7 @@ fn encode_and_check(h: &SparseMatrix, name: &str, k: usize, n: usize, messages: 
         let msg: Vec<u8> = (0..k)
             .map(|_| {
                 sd = splitmix(sd);
-                if t == 0 { 1 } else { (sd & 1) as u8 }
+                if t == 0 { 1 } else if t == 1 { 0 } else { (sd & 1) as u8 }
             })
             .collect();
         let arr = Array1::from_iter(msg.iter().map(|&b| if b == 1 { GF2::one() } else { GF2::zero() }));
